@@ -56,7 +56,11 @@ class ExternalImportFilter:
     def _is_internal_import(self, i: Import) -> bool:
         importee = i.importee()
 
-        return importee.startswith(self._root_module_name)
+        # the prefix ends with "." when root and module path coincide: the root package itself is internal, too
+        return (
+            importee.startswith(self._root_module_name)
+            or importee + "." == self._root_module_name
+        )
 
     def _is_internal_or_retained_external_import(self, i: Import) -> bool:
         if self._is_internal_import(i):
